@@ -90,7 +90,9 @@ def sym_daily_frame(idx, with_obs, nan_rows):
     st = {}
     names = ["temperature"] + (["observed"] if with_obs else []) + ["predicted", "predicted_unc", "heating_load", "cooling_load"]
     pstate = [F.choose(f"p_state{i}", ["val", "nan"]) if i in nan_rows else "val" for i in range(n)]
-    tstate = [F.choose(f"t_state{i}", ["val", "nan"]) if i in nan_rows[:1] else "val" for i in range(n)]
+    # temperature may be missing on the first two days (a weather record that starts late: the whole first month of a
+    # span without temperature) as well as on the first designated row
+    tstate = [F.choose(f"t_state{i}", ["val", "nan"]) if (i in nan_rows[:1] or i in (0, 1)) else "val" for i in range(n)]
     ostate = [F.choose(f"o_state{i}", ["val", "nan"]) if i in nan_rows[:2] else "val" for i in range(n)]
     for c in names:
         states = {"temperature": tstate, "observed": ostate}.get(c, pstate)
